@@ -10,6 +10,7 @@ pub mod interrupt;
 pub mod model;
 pub mod numerics;
 pub mod algos;
+pub mod ops;
 pub mod order;
 pub mod parallel;
 pub mod population;
@@ -28,6 +29,8 @@ pub fn property(id: &str, tier: Tier) -> Option<PropertyDef> {
         "C12" => Some(checker::property(tier)),
         "C13" => Some(scientific::property(tier)),
         "C14" => Some(model::property(tier)),
+        "C04" => Some(ops::property("C04", tier)),
+        "C05" => Some(ops::property("C05", tier)),
         "C07" => Some(interrupt::property(tier)),
         "C08" => Some(population::property(tier)),
         "C09" => Some(order::property(tier)),
